@@ -64,6 +64,7 @@ class SimAtexit:
 
 
 _PATCHES = None
+LOCK_ROOT = "/dev/shm/molli-verif-simlocks/shared"   # exists as an EMPTY real directory (fasteners makedirs it); no file is ever created in it
 
 
 def _build_patches():
@@ -71,6 +72,7 @@ def _build_patches():
     import fasteners._utils
     import fasteners.process_lock
     import molli.chem.library
+    import molli.config
     import molli.storage.backends
     import molli.storage.collection
     import molli.storage.ukvfile
@@ -94,10 +96,60 @@ def _build_patches():
         (molli.storage.backends, "atexit", SimAtexit),
         (fasteners.process_lock, "_interprocess_reader_writer_mechanism", SimLockMech),
         (fasteners._utils, "time", SimTime),
+        # lock files are named under SHARED_DIR/lock: a constant virtual directory, so that lock-file names (and anything
+        # keyed or ordered by them) are the same in every process that executes a run
+        (molli.config, "SHARED_DIR", K.SimPath(LOCK_ROOT)),
     ]
 
 
 _MISSING = object()
+
+# Module-level mutable containers of the code under test are process-global state: in production every process starts
+# with the import-time value, in the simulator all runs (and all simulated processes) of one interpreter share them.
+# They are put back to their import-time content at the start of every run, so that a run never depends on the runs
+# that happened to precede it in the same worker.
+_STATE_MODULES = ("molli._aux.lock", "molli.storage.backends", "molli.storage.ukvfile", "molli.storage.collection",
+                  "molli.chem.library", "molli.pipeline.job", "molli.pipeline.runner", "molli.pipeline.driver")
+_STATE_SNAPSHOT = None
+
+
+def _snapshot_module_state():
+    import copy
+    import sys as _sys
+
+    snap = {}
+    for mn in _STATE_MODULES:
+        mod = _sys.modules.get(mn)
+        if mod is None:
+            continue
+        for name, val in list(vars(mod).items()):
+            if name.startswith("__"):
+                continue
+            if type(val) in (set, dict, list):
+                try:
+                    snap[(mn, name)] = copy.copy(val)
+                except Exception:  # noqa: BLE001
+                    pass
+    return snap
+
+
+def reset_process_state(kernel=None):
+    global _STATE_SNAPSHOT
+    import os
+    import sys as _sys
+
+    if _STATE_SNAPSHOT is None:
+        _STATE_SNAPSHOT = _snapshot_module_state()
+    for (mn, name), val in _STATE_SNAPSHOT.items():
+        cur = getattr(_sys.modules[mn], name, None)
+        if type(cur) is type(val) and cur != val:
+            cur.clear()
+            if isinstance(cur, list):
+                cur.extend(val)
+            else:
+                cur.update(val)
+            if kernel is not None:
+                kernel.counters["module_state_reset"] += 1
 
 
 @contextlib.contextmanager
@@ -111,6 +163,7 @@ def storage_seams(kernel: K.Kernel):
         saved.append((mod, name, mod.__dict__.get(name, _MISSING)))
         setattr(mod, name, val)
     K.install(kernel)
+    reset_process_state(kernel)
     old_hook = sys.unraisablehook
 
     def _hook(u):
@@ -121,6 +174,7 @@ def storage_seams(kernel: K.Kernel):
         yield kernel
     finally:
         kernel.finished = True
+        kernel.close_all_real()
         sys.unraisablehook = old_hook
         K.install(None)
         for mod, name, old in reversed(saved):
